@@ -81,6 +81,7 @@ def run(ctx):
   tier = ctx.tier
   rule_tables(ctx, tier)
   rule_consist(ctx)
+  rule_rank_blocks(ctx)
   rule_minsize(ctx)
   rule_cusum(ctx)
   rule_formula(ctx)
@@ -109,7 +110,7 @@ def run(ctx):
   ctx.expect("R-C12-TABLES", 60, "17 longest-run + 6 + 33 rank + universal + 11 min_n + 14 linear complexity + 3 excursions")
   ctx.expect("R-C12-MINSIZE", 10, "nine InsufficientDataError guards + the 500-cycle gate of the excursion tests")
   ctx.expect("R-C12-CUSUM", 2, "two extrema")
-  ctx.expect("R-C12-CONSIST", 5, "five shape obligations")
+  ctx.expect("R-C12-CONSIST", 9, "five shape obligations + the row groups of the rank test")
 
 
 # ------------------------------------------------------------------ TABLES
@@ -1614,6 +1615,15 @@ def rule_universal(ctx):
     off1 = (p1 - as_poly(ba.args[1])) if ba is not None and ba.kind == "idx" else None
     if off1 is None or off1.as_int() is None or not (s0 - off1).is_zero():
       probs.append("the table is not indexed by the block at the current position")
+    elif ba is not None:
+      # the blocks: all L-bit blocks of the input, the first Q for initialisation and *all the others* as test blocks (K = floor(n / L) - Q)
+      blk = as_poly(ba.args[0])
+      pr_ = f.params()
+      want_blk = sym.mk("call", P("lit", "randomness_tests.util:SplitSequence"), P("param", pr_[0]), P("param", pr_[1]), P("param", pr_[2]))
+      if blk != want_blk:
+        probs.append("the blocks are not util.SplitSequence(bits, n, block_size)")
+      elif not (e1 - s0 - sym.mk("len", blk)).is_zero():
+        probs.append("the test segment ends at block %r, not at the last block len(blocks): K must be the number of blocks left after the Q initialisation blocks" % (e1,))
     acc = aug[0].data["name"]
   ctx.record(R, f.where, "f_n = (1/K) sum log2(position - last position), unseen patterns count from the start", not probs, "; ".join(sorted(set(probs))) or
              "table starts at first position - 1 = %r; init records positions %r..; test adds log2(p - T[b]) then sets T[b] = p" % (I, s0))
@@ -2030,6 +2040,59 @@ def rule_range(ctx):
       else:
         ctx.violation(R, f.where, con, "assembled by floating-point arithmetic with enclosure [%g, %g] and not clamped: truncation of the series and rounding can take it outside [0, 1] (%s)" % (lo, hi, repr(v)[:100]))
   ctx.note("R-C12-RANGE followed %d functions from the registry" % nfun)
+
+
+# ------------------------------------------------------------------ rank test: the matrices are the consecutive disjoint groups of r rows
+def rule_rank_blocks(ctx):
+  """NIST 2.5.4: the sequence is cut into N = floor(n / (M*Q)) disjoint matrices of M consecutive rows; matrix i consists of rows [i*r, (i+1)*r).
+  By value: what is handed to util.BinaryMatrixRank on pass k of the loop is rows[lo:hi] with lo = k*r, hi - lo = r, and the loop makes len(rows) // r
+  passes (whatever the loop counts: matrices or starting rows)."""
+  R = "R-C12-CONSIST"
+  repo = ctx.repo
+  f = repo.func(MOD, "BinaryMatrixRankImpl")
+  w = sym.Walker(repo, f)
+  w.run()
+  rows, r = P("param", f.params()[0]), P("param", f.params()[1])
+  N = sym.mk("fdiv", sym.mk("len", rows), r)
+  calls = [e for e in w.events if e.kind == "call" and str(e.data["name"]).endswith("util:BinaryMatrixRank") and e.data["args"]]
+  probs = []
+  if not calls:
+    ctx.incomplete(R, f.where, "matrix i = rows[i*r:(i+1)*r]", "no call of util.BinaryMatrixRank")
+    return
+  for e in calls:
+    a = as_poly(e.data["args"][0]).as_atom() if not isinstance(e.data["args"][0], (Seq, Const, tuple)) else None
+    if a is None or a.kind != "slice" or len(a.args) != 4 or as_poly(a.args[0]) != rows or repr(a.args[3]) != "lit('None')":
+      probs.append("the matrix handed to the rank routine is not a slice of consecutive rows: %r" % (e.data["args"][0],))
+      continue
+    lo = Poly.const(0) if repr(a.args[1]) == "lit('None')" else as_poly(a.args[1])
+    hi = as_poly(a.args[2]) if repr(a.args[2]) != "lit('None')" else None
+    vis = None
+    for info in w.loop_info.values():
+      for v_ in info.get("visits", []):
+        ka = as_poly(v_["k"]).as_atom()
+        if ka is not None and any(t_ == ka for t_ in lo.all_atoms()):
+          vis = v_
+    if hi is None or not (hi - lo - r).is_zero():
+      probs.append("a matrix has %r rows, not r" % ((hi - lo) if hi is not None else "all remaining",))
+    if vis is None:
+      probs.append("the first row of a matrix does not depend on the pass of the loop")
+      continue
+    k = as_poly(vis["k"])
+    if not (lo - k * r).is_zero():
+      probs.append("matrix number k starts at row %r, not at k*r (matrices must be disjoint and consecutive)" % (lo,))
+    it = as_poly(vis["iter"]).as_atom() if isinstance(vis["iter"], Poly) else None
+    passes = None
+    if it is not None and it.kind == "range":
+      if len(it.args) == 1:
+        passes = as_poly(it.args[0])
+      elif len(it.args) == 3 and as_poly(it.args[0]).is_zero() and (as_poly(it.args[1]) - as_poly(it.args[2]) * N).is_zero():
+        passes = N
+      elif len(it.args) == 2 and as_poly(it.args[0]).is_zero():
+        passes = as_poly(it.args[1])
+    if passes is None or not (passes - N).is_zero():
+      probs.append("the loop does not make len(rows) // r passes (%r)" % (vis["iter"],))
+  probs = sorted(set(probs))
+  ctx.record(R, f.where, "matrix i = rows[i*r:(i+1)*r], i < len(rows) // r", not probs, "; ".join(probs) or "disjoint consecutive groups of r rows, all full groups used")
 
 
 # ------------------------------------------------------------------ UNIVERSAL parameters (L by n, Q = 10 * 2^L)
